@@ -886,9 +886,10 @@ func runSlotRelease(c *core.Ctx) {
 				return
 			}
 			dels := false
-			an.Instrs(sc, func(in ssa.Instruction) {
-				if cc, ok := in.(*ssa.Call); ok {
-					if b, ok := cc.Call.Value.(*ssa.Builtin); ok && b.Name() == "delete" && len(sc.Params) == 2 && an.PathOf(cc.Call.Args[1]) == "p:"+sc.Params[1].Name() {
+			// (the delete may be delegated to a private helper of the state: stat.drop(id))
+			an.Region(sc, nil, func(so an.Occ) {
+				if cc, ok := so.In.(*ssa.Call); ok {
+					if b, ok := cc.Call.Value.(*ssa.Builtin); ok && b.Name() == "delete" && len(sc.Params) == 2 && so.Path(cc.Call.Args[1]) == "p:"+sc.Params[1].Name() {
 						dels = true
 					}
 				}
@@ -957,6 +958,29 @@ func runSlotRelease(c *core.Ctx) {
 	}
 }
 
+// slotMapOf: the receiver's map whose per-key slice the fill method writes an
+// element of (`msgs := stat.m[key]; msgs[i] = msg`), in the method's own terms —
+// wherever the store is written (the method or a private helper it calls).
+func slotMapOf(fill *ssa.Function) string {
+	out := ""
+	an.Region(fill, nil, func(o an.Occ) {
+		st, ok := o.In.(*ssa.Store)
+		if !ok {
+			return
+		}
+		ia, ok := st.Addr.(*ssa.IndexAddr)
+		if !ok {
+			return
+		}
+		if lk, ok := an.LoadedValue(an.Unwrap(ia.X)).(*ssa.Lookup); ok {
+			if p := o.Path(lk.X); strings.HasPrefix(p, "recv.") {
+				out = p
+			}
+		}
+	})
+	return out
+}
+
 func runCountMax(c *core.Ctx) {
 	P := c.P
 	fn := P.Method(P.Root, "mergeHandlerSessionCountState", "Msg")
@@ -977,7 +1001,14 @@ func runCountMax(c *core.Ctx) {
 			detail = "the reply is chosen by " + n
 			continue
 		}
-		if an.PathOf(call.Call.Args[0]) != "recv.counts[p:"+fn.Params[1].Name()+"]" {
+		// the children's replies: the per-subscription slot list that SetCountMsg fills
+		slots := "recv.counts"
+		if fill := P.Method(P.Root, "mergeHandlerSessionCountState", "SetCountMsg"); fill != nil {
+			if m := slotMapOf(fill); m != "" {
+				slots = m
+			}
+		}
+		if an.PathOf(call.Call.Args[0]) != slots+"[p:"+fn.Params[1].Name()+"]" {
 			detail = "MaxFunc runs over " + an.PathOf(call.Call.Args[0])
 			continue
 		}
